@@ -54,6 +54,10 @@ type Session struct {
 	// NoEchoMark: no message mark after an echoed request: one read may carry the tail of the echo
 	// together with (part of) the reply that follows. The echo is not a server message.
 	NoEchoMark bool `json:"no_echo_mark,omitempty"`
+	// HoldHelloTail (with NoEchoMark): the last N bytes of the echo of the client's hello stay in
+	// the transport until the first request is written, so that one read carries the end of the hello
+	// echo (its delimiter) together with the beginning of the first request's echo.
+	HoldHelloTail int `json:"hold_hello_tail,omitempty"`
 	// ReadDelayMs: channel read delay (0 = the library's default of 250 us; never busy polling)
 	ReadDelayMs int        `json:"read_delay_ms,omitempty"`
 	Seg         devsim.Seg `json:"seg"`
@@ -294,6 +298,9 @@ func GenSession(r *rand.Rand, idx int) Session {
 			s.Seg.Mode, s.Seg.Size = []string{"whole", "fixed", "mix", "mix"}[r.Intn(4)], []int{4096, 4096, 100, 4096}[r.Intn(4)]
 		}
 	}
+	if s.NoEchoMark && r.Intn(3) == 0 {
+		s.HoldHelloTail = 1 + r.Intn(8)
+	}
 	maxFill := 600
 	switch {
 	case s.Seg.Mode == "fixed" && s.Seg.Size == 1:
@@ -359,7 +366,12 @@ func GenSession(r *rand.Rand, idx int) Session {
 			}
 		}
 		big := maxFill == 600 && r.Intn(14) == 0
-		if c.Plan == "local" {
+		if s.HoldHelloTail > 0 && reqs == 0 && c.Plan != "local" && !(s.Seg.Mode == "fixed" && s.Seg.Size < 17) && r.Intn(2) == 0 {
+			// a first request larger than any read: its echo starts in the read that ends the echo of
+			// the client's hello and does not end there
+			c.Kind, c.Store = "edit-config", "candidate"
+			c.Arg = `<config><system xmlns="urn:verif:sys"><motd>` + randStr(r, nameAlpha+" \n", 9000+r.Intn(3000)) + `</motd></system></config>`
+		} else if c.Plan == "local" {
 			c.Kind = []string{"get-badfilter", "get-config-baddefault"}[r.Intn(2)]
 			c.Arg = "<a/>"
 			c.Store = "running"
